@@ -66,13 +66,14 @@ def init_for(rng, eng, x, tbl):
     if eng == "st_plc":
         s = rng.choice(szs)
         return [0, 0, rng.choice([s, s - 1, s + 1, szs[-1], szs[-1] + 64]), 0]
-    a = rng.choice([1, 8])
+    a = rng.choice([1, 8, 3, 7, 24])
     s = rng.choice(szs)
     return [0, 0, a, rng.choice([0, 0, 3, s // a, s // a + 1, (s + a - 1) // a, 2 * s // a])]
 
 
 def gen_random(rng, eng, name, x, tbl, nops):
-    ks = sorted(tbl)
+    order = sorted(tbl, key=lambda k: (tbl[k], k))   # classes by frame size
+    ks = list(range(len(order)))
     ops = [init_for(rng, eng, x, tbl)]
     live = set()
     bias = rng.choice(["grow", "shrink", "same", "mix"])
@@ -82,13 +83,13 @@ def gen_random(rng, eng, name, x, tbl, nops):
         free = [s for s in range(6) if s not in live]
         may_create = free and (eng not in SINGLE or not live or r < 0.04)
         if may_create and (r < 0.55 or not live):
-            if bias == "grow": k = min(ks[-1], last + rng.choice([0, 1, 1, 2]))
-            elif bias == "shrink": k = max(0, last - rng.choice([0, 1, 1, 2]))
+            if bias == "grow": k = min(ks[-1], last + rng.choice([0, 1, 2, 3, 5]))
+            elif bias == "shrink": k = max(0, last - rng.choice([0, 1, 2, 3, 5]))
             elif bias == "same": k = last if rng.random() < 0.7 else rng.choice(ks)
             else: k = rng.choice(ks)
             last = k
             s = rng.choice(free)
-            ops.append([1, s, k, tbl[k]])
+            ops.append([1, s, order[k], tbl[order[k]]])
             if eng not in SINGLE or not live:
                 live.add(s)
         elif live:
@@ -106,12 +107,13 @@ def gen_random(rng, eng, name, x, tbl, nops):
 
 
 def boundary(x, tbl):
-    ks = sorted(tbl)
+    order = sorted(tbl, key=lambda k: (tbl[k], k))
+    ks = list(range(len(order)))
     out = []
     b = [0]
     def add(eng, ops):
         out.append(close_case(Case(eng, "b%d" % b[0], ops))); b[0] += 1
-    def cr(s, k): return [1, s, k, tbl[k]]
+    def cr(s, k): return [1, s, order[k], tbl[order[k]]]
     for xx in (0, x):
         # reusable: equal size after warm-up, smaller, larger, one class larger
         for k in ks:
@@ -122,13 +124,13 @@ def boundary(x, tbl):
             add("st_mts", [[0, xx, 0, 0], cr(0, k), [2, 0], cr(0, k), cr(1, k2), [2, 1], [2, 0], cr(1, k2), [2, 1], cr(2, k)])
             add("st_def", [[0, xx, 0, 0], cr(0, k), cr(1, k), [2, 0], cr(0, k2), [2, 1], [2, 0]])
     for k in ks:
-        s = tbl[k]
+        s = tbl[order[k]]
         k2 = min(ks[-1], k + 1); k0 = max(0, k - 1)
         for a in (0, s, s + 1, s + 2):
             add("st_stk", [[0, 0, a, 0], cr(0, k), cr(1, k), [2, 0], cr(0, k0), cr(2, k2), [2, 1], [2, 0], cr(3, k2), cr(4, k)])
         for p in (s - 1, s, s + 1):
             add("st_plc", [[0, 0, p, 0], cr(0, k), [2, 0], cr(1, k0), [2, 1], cr(0, k2), [2, 0], cr(0, k)])
-        for a in (1, 8):
+        for a in (1, 8, 3, 7, 24):
             for n0 in (0, (s + a - 1) // a, (s + a - 1) // a - 1, (s + a - 1) // a + 1, s // a // 2 + 1):
                 add("st_buf", [[0, 0, a, n0], cr(0, k), [2, 0], cr(0, k), [2, 0], cr(0, k2), [2, 0], cr(1, k0), [2, 1], cr(0, ks[-1]), [2, 0], cr(0, k2)])
     return out
@@ -153,7 +155,8 @@ def mk_mt(name, progs, sched):
 
 def gen_mt(seed, tier):
     x, tbl = sizes()
-    ks = sorted(tbl)
+    order = sorted(tbl, key=lambda k: (tbl[k], k))
+    ks = list(range(len(order)))
     rng = random.Random(seed * 15485863 + 191)
     n = 450 if tier == "quick" else 5000
     cases = []
@@ -167,9 +170,9 @@ def gen_mt(seed, tier):
                 if live and rng.random() < 0.45:
                     p.append([rng.choice([-1, -1, -2]), 0]); live -= 1
                 else:
-                    k = min(ks[-1], max(0, base + rng.choice([-1, 0, 0, 1, 1, 2])))
+                    k = min(ks[-1], max(0, base + rng.choice([-2, -1, 0, 0, 1, 2, 3, 5])))
                     base = k
-                    p.append([k, tbl[k]]); live += 1
+                    p.append([order[k], tbl[order[k]]]); live += 1
             if rng.random() < 0.05: p.append([-1, 0])          # finish with nothing left: dropped on both sides
             if rng.random() < 0.05: p.insert(0, [0, 0])        # size 0: dropped on both sides
             progs.append(p)
@@ -182,8 +185,8 @@ def gen_mt(seed, tier):
         else: sched = [rng.choice([5, 4, 3, 0]) for _ in range(L)]
         cases.append(mk_mt("m%d" % i, progs, sched))
     # systematic: every schedule of small two- and three-thread configurations
-    k0, k1, k2 = ks[1], ks[3], ks[5]
-    C = lambda k: [k, tbl[k]]
+    k0, k1, k2 = ks[3], ks[10], ks[16]
+    C = lambda k: [order[k], tbl[order[k]]]
     F = [-1, 0]
     cfgs = [([[C(k0), F, C(k1), F], [C(k0), F, C(k0), F]], 2, 11 if tier == "quick" else 14),
             ([[C(k1), F], [C(k2), F], [C(k0), F]], 3, 7 if tier == "quick" else 9),
